@@ -35,8 +35,8 @@
         dhtAfterSof01  0: DHT segments before SOF3, 1: after SOF3 (before SOS)
         extraSegs01    1: an APP1 segment "verif", a COM segment and an APP14 segment are
                        inserted between SOI and the first of DHT/SOF3
-        err: invalid parameters, a sample >= 2^P, an invalid table, or a needed category that
-        has no code in the selected table.
+        err: invalid parameters, a sample >= 2^P, an invalid table, two tables with the same id,
+        or a needed category that has no code in the selected table.
 *)
 open BinNums
 open Conv
